@@ -231,3 +231,48 @@ def is_call_to(ctx, f, e, dotted):
         return False
     d = ctx.m.dotted(f.rel, e.func)
     return d == dotted or (isinstance(dotted, (set, tuple, list)) and d in dotted)
+
+
+def reaching_defs(ctx, f, at_node, name):
+    """Values of the definitions of local `name` that reach AST node `at_node`
+    (backward walk over the CFG).  Elements: value expr, or None for bindings
+    without a single value (for targets, unpacking), or 'param' for the entry."""
+    from sa.cfg import assigned_paths
+
+    cfg = ctx.cfg(f)
+    n0 = cfg.node_of(at_node)
+    if n0 is None:
+        return [v for _, v in defs_of(ctx, f, name)]
+    out = []
+    seen = set()
+    stack = [p for p, lab in n0.preds]
+    while stack:
+        i = stack.pop()
+        if i in seen:
+            continue
+        seen.add(i)
+        n = cfg.nodes[i]
+        hit = False
+        a = n.ast
+        if n.kind == "stmt" and isinstance(a, (ast.Assign, ast.AnnAssign, ast.AugAssign)):
+            if name in assigned_paths(a):
+                hit = True
+                if isinstance(a, ast.Assign) and len(a.targets) == 1 and isinstance(a.targets[0], ast.Name):
+                    out.append(a.value)
+                elif isinstance(a, ast.AnnAssign) and a.value is not None:
+                    out.append(a.value)
+                else:
+                    out.append(None)
+        elif n.kind == "for" and name in assigned_paths(a):
+            hit = True
+            out.append(None)
+        elif n.kind == "stmt" and isinstance(a, ast.With) and name in assigned_paths(a):
+            hit = True
+            out.append(None)
+        elif n.kind == "entry":
+            if name in f.params:
+                out.append("param")
+            continue
+        if not hit:
+            stack.extend(p for p, lab in n.preds)
+    return out
